@@ -1,6 +1,7 @@
 package vc
 
 import (
+	"go/token"
 	"sync"
 	"sort"
 	"fmt"
@@ -135,7 +136,28 @@ func (c *VCtx) call(fr *Frame, st *State, cc *ssa.CallCommon, instr *ssa.Call, m
 			unsup("call of %T value", v)
 		}
 	}
-	return c.callFn(fr, st, cc, fv, args, rt, mode)
+	res := c.callFn(fr, st, cc, fv, args, rt, mode)
+	if mode == "call" && fr.contract != nil && fv != nil && fv.Fn != nil {
+		// ghost statements right after a static call: "aftercall <function key>", ret = its result
+		pt := "aftercall " + strings.SplitN(bareName(FuncKey(fv.Fn)), "[", 2)[0]
+		for _, g := range fr.contract.Ghost {
+			if g.At == pt {
+				extra := map[string]Val{}
+				if res != nil {
+					if tup, isTup := res.(Tuple); isTup {
+						for i, r := range tup {
+							extra[fmt.Sprintf("ret%d", i)] = r
+						}
+					} else {
+						extra["ret"] = res
+					}
+				}
+				c.runGhost(fr, st, fr.contract, pt, extra)
+				break
+			}
+		}
+	}
+	return res
 }
 
 func (c *VCtx) callFn(fr *Frame, st *State, cc *ssa.CallCommon, fv *FnVal, args []Val, rt types.Type, mode string) Val {
@@ -152,6 +174,13 @@ func (c *VCtx) callFn(fr *Frame, st *State, cc *ssa.CallCommon, fv *FnVal, args 
 		return nil
 	}
 	ct := c.eng.ContractOf(callee)
+	if ct != nil && !ct.Inline && c.contract != nil && strings.Contains(" "+c.contract.Opts["inline-calls"]+" ", " "+strings.SplitN(bareName(FuncKey(callee)), "[", 2)[0]+" ") && callee != c.top {
+		// the function under verification asks for this helper's body instead of its contract (it calls it in a
+		// state in which the helper's entry assumptions do not hold yet)
+		cp := *ct
+		cp.Inline = true
+		ct = &cp
+	}
 	if ct != nil && ct.Opts["holds"] != "" && callee.Signature.Recv() != nil && callee != c.top && len(args) > 0 {
 		// a ...Locked helper: the caller must be inside a critical section of the lock the helper relies on
 		if recv, ok := args[0].(*Term); ok && recv.Sort == SRef {
@@ -493,7 +522,28 @@ func (c *VCtx) applyContract(fr *Frame, st *State, cc *ssa.CallCommon, ct *FuncC
 				}
 			}
 		}
+		for _, po := range private {
+			// a map this invocation made and never handed out keeps its entries
+			if po.typ == nil {
+				continue
+			}
+			if mt, ok := po.typ.Underlying().(*types.Map); ok {
+				dn, vn, cn := mapHeapNames(mt)
+				for _, hn := range []string{dn, vn, cn} {
+					if srt, ok := c.heapSorts[hn]; ok {
+						kept = append(kept, keep{hn, po.ref, c.name("keep", Select(c.heap(st, hn, srt), po.ref))})
+					}
+				}
+			}
+		}
 		foreign := c.heapsOutOfReach(st, callee, args)
+		for _, hn := range c.immutableHeaps() {
+			// fields declared immutable: objects that exist keep their values; what the callee stores into objects
+			// it creates is unknown to the caller either way (and constrained only by its postconditions)
+			if srt, ok := c.heapSorts[hn]; ok {
+				foreign[hn] = c.heap(st, hn, srt)
+			}
+		}
 		for _, g := range c.ghostMaps() {
 			// thread-local ghost maps change only through ghost statements the callee can reach
 			if g.kind == "local" && !c.mayAssignGhost(callee, g.name) {
@@ -519,6 +569,7 @@ func (c *VCtx) applyContract(fr *Frame, st *State, cc *ssa.CallCommon, ct *FuncC
 			// nor can the callee have made any ghost map refer to them
 			c.noGhostRefs(st, po.ref)
 		}
+		c.callerOwnedFacts(st)
 		for k, v := range savedHeaps {
 			st.heaps[k] = v
 		}
@@ -892,6 +943,25 @@ func (c *VCtx) appendOp(fr *Frame, st *State, cc *ssa.CallCommon) Val {
 	c.setHeap(st, hn, Ite(grow, Store(h, farr, fcont), h))
 	res := c.name("app", Ite(grow, MkSlice(farr, IntLit(0), newLen, fcap, cc.Args[0].Type()), MkSlice(SlArr(s), SlOff(s), newLen, SlCap(s), cc.Args[0].Type())))
 	res.GT = cc.Args[0].Type()
+	if sl1, ok := cc.Args[1].(*ssa.Slice); ok && sl1.Low == nil && sl1.High == nil {
+		if al, ok := sl1.X.(*ssa.Alloc); ok {
+			if at, ok := al.Type().Underlying().(*types.Pointer).Elem().Underlying().(*types.Array); ok && at.Len() == 1 {
+				// append(s, x): one element, written with a plain store (no quantified range definition)
+				h2 := c.heap(st, hn, hs)
+				arr := SlArr(res)
+				na := c.name("A1", Store(Select(h2, arr), SIdx(res, SlLen(s)), T(es, srcAt("0"))))
+				c.setHeap(st, hn, Store(h2, arr, na))
+				// consequences of the definitions above, phrased over slice positions (both the grown and the
+				// in-place case): res[j] = s[j] for j < len(s), res[len(s)] = x
+				oa := c.name("A0", oldA)
+				c.fact(T(SBool, fmt.Sprintf("(forall ((j Int)) (! (=> (and (<= 0 j) (< j (s-len %s))) (= (select %s (sidx %s j)) (select %s (sidx %s j)))) :pattern ((select %s (sidx %s j))) :pattern ((select %s (sidx %s j)))))",
+					s.S, na.S, res.S, oa.S, s.S, na.S, res.S, oa.S, s.S)))
+				c.fact(Eq(Select(na, SIdx(res, SlLen(s))), T(es, srcAt("0"))))
+				c.fact(Eq(SlLen(res), Add(SlLen(s), IntLit(1))))
+				return res
+			}
+		}
+	}
 	c.rangeWrite(st, es, res, SlLen(s), srcAt, n)
 	return res
 }
@@ -1122,6 +1192,7 @@ func (c *VCtx) lastCallFacts(st, pre *State, args []Val) {
 type privObj struct {
 	ref              *Term
 	fprefix, gprefix string
+	typ              types.Type
 }
 
 func (c *VCtx) privateObjects() []privObj {
@@ -1131,7 +1202,7 @@ func (c *VCtx) privateObjects() []privObj {
 		if p, ok := t.(*types.Pointer); ok {
 			t = p.Elem()
 		}
-		po := privObj{ref: r, fprefix: fieldHeapName(t, "")}
+		po := privObj{ref: r, fprefix: fieldHeapName(t, ""), typ: t}
 		if sp := c.objectSpec(t); sp != nil {
 			po.gprefix = "G:" + shortPkg(sp.Pkg) + "." + sp.Type + "."
 		}
@@ -1180,7 +1251,157 @@ func (c *VCtx) isGhostFieldHeap(h string) bool {
 // afterOpaqueCall relates the state after a frame-skip call to the state before it: set-once ghost entries keep
 // their value, alloc only grows, the two-state guarantees hold for the step, and (outside critical sections)
 // the global invariants hold again.
+// callerOwnedFacts: the contract option "caller-owned = s1 s2" names slice parameters whose elements nobody
+// writes while the function runs (they belong to the caller, who is blocked in this call; callbacks are
+// assumed not to write them). Listed as an assumption in the evidence.
+func (c *VCtx) callerOwnedArrays() []*Term {
+	fr := c.rootFrame
+	if fr == nil || c.contract == nil || c.contract.Opts["caller-owned"] == "" {
+		return nil
+	}
+	var out []*Term
+	for _, name := range strings.Fields(strings.ReplaceAll(c.contract.Opts["caller-owned"], ",", " ")) {
+		for _, p := range fr.fn.Params {
+			if p.Name() == name {
+				out = append(out, SlArr(c.asTerm(fr.env[p])))
+			}
+		}
+	}
+	return out
+}
+
+func (c *VCtx) callerOwnedFacts(st *State) {
+	fr := c.rootFrame
+	if fr == nil || c.contract == nil || c.contract.Opts["caller-owned"] == "" || fr.entry == nil {
+		return
+	}
+	for _, name := range strings.Fields(strings.ReplaceAll(c.contract.Opts["caller-owned"], ",", " ")) {
+		for _, p := range fr.fn.Params {
+			if p.Name() != name {
+				continue
+			}
+			sl, ok := p.Type().Underlying().(*types.Slice)
+			if !ok {
+				unsup("caller-owned %s: not a slice parameter", name)
+			}
+			es := sortOf(sl.Elem())
+			hs := ArrSort(SRef, ArrSort(SInt, es))
+			old := c.heap(fr.entry, elemHeapName(es), hs)
+			nw := c.heap(st, elemHeapName(es), hs)
+			if old.S == nw.S {
+				continue
+			}
+			arr := SlArr(c.asTerm(fr.env[p]))
+			c.eng.assume(fmt.Sprintf("%s: the elements of the slice argument %s are not written while the call runs (caller-owned; callbacks are assumed not to write it)", FuncKey(fr.fn), name))
+			c.linkFact(Eq(Select(nw, arr), Select(old, arr)))
+		}
+	}
+}
+
+// ownSliceFacts: the contract option "own-slices = v1 v2" names slice variables of the function under
+// verification that only ever hold nil or the result of append on themselves and are used only as the
+// destination of append, in len/cap, and as results (checked syntactically): their backing arrays are
+// created by this invocation and never handed out before it returns, so no call can change their contents.
+func (c *VCtx) ownSliceFacts(st, pre *State) {
+	fr := c.rootFrame
+	if fr == nil || c.contract == nil || c.contract.Opts["own-slices"] == "" || len(fr.fn.Blocks) == 0 {
+		return
+	}
+	for _, name := range strings.Fields(strings.ReplaceAll(c.contract.Opts["own-slices"], ",", " ")) {
+		var al *ssa.Alloc
+		for _, in := range fr.fn.Blocks[0].Instrs {
+			if a, ok := in.(*ssa.Alloc); ok && a.Comment == name {
+				al = a
+			}
+		}
+		if al == nil || fr.env[al] == nil {
+			unsup("own-slices %s: no such variable cell", name)
+		}
+		sl, ok := al.Type().Underlying().(*types.Pointer).Elem().Underlying().(*types.Slice)
+		if !ok {
+			unsup("own-slices %s: not a slice variable", name)
+		}
+		if !ownSliceShape(al) {
+			unsup("own-slices %s: the variable is used other than as append destination / len / cap / result", name)
+		}
+		es := sortOf(sl.Elem())
+		hs := ArrSort(SRef, ArrSort(SInt, es))
+		old := c.heap(pre, elemHeapName(es), hs)
+		nw := c.heap(st, elemHeapName(es), hs)
+		if old.S == nw.S {
+			continue
+		}
+		cur := c.asTerm(c.load(fr, pre, fr.env[al], 0))
+		arr := SlArr(cur)
+		c.linkFact(Or(Eq(arr, Null), Eq(Select(nw, arr), Select(old, arr))))
+	}
+}
+
+// ownSliceShape: every use of the variable cell is a load feeding append (as destination), len, cap, a
+// return or a debug reference, or a store of nil / of an append whose destination is a load of the cell.
+func ownSliceShape(al *ssa.Alloc) bool {
+	isLoadOf := func(v ssa.Value) bool {
+		u, ok := v.(*ssa.UnOp)
+		return ok && u.Op == token.MUL && u.X == al
+	}
+	for _, r := range *al.Referrers() {
+		switch x := r.(type) {
+		case *ssa.DebugRef:
+		case *ssa.Store:
+			if x.Addr != al {
+				return false
+			}
+			if cst, ok := x.Val.(*ssa.Const); ok && cst.IsNil() {
+				continue
+			}
+			call, ok := x.Val.(*ssa.Call)
+			if !ok {
+				return false
+			}
+			b, ok := call.Call.Value.(*ssa.Builtin)
+			if !ok || b.Name() != "append" || !isLoadOf(call.Call.Args[0]) {
+				return false
+			}
+		case *ssa.UnOp:
+			if !isLoadOf(x) {
+				return false
+			}
+			for _, rr := range *x.Referrers() {
+				switch y := rr.(type) {
+				case *ssa.DebugRef, *ssa.Return:
+				case *ssa.Call:
+					b, ok := y.Call.Value.(*ssa.Builtin)
+					if !ok {
+						return false
+					}
+					switch b.Name() {
+					case "len", "cap":
+					case "append":
+						if y.Call.Args[0] != x {
+							return false
+						}
+						for _, a := range y.Call.Args[1:] {
+							if a == x {
+								return false
+							}
+						}
+					default:
+						return false
+					}
+				default:
+					return false
+				}
+			}
+		default:
+			return false
+		}
+	}
+	return true
+}
+
 func (c *VCtx) afterOpaqueCall(st, pre *State, worksUnderCallerLock bool, callee *ssa.Function) {
+	c.callerOwnedFacts(st)
+	c.ownSliceFacts(st, pre)
 	// fields declared immutable keep their value on every object that existed before the call
 	allocPre := c.allocHeap(pre)
 	if allocPost := c.allocHeap(st); allocPost.S != allocPre.S {
